@@ -43,8 +43,10 @@ X_TOL = 1e-6
 def gen_plan(rng, run_index, tier, opts):
     mip = rng.random() < 0.3
     env = specs.Env(rng, max_T=(24 if mip else 72))
-    env.periodic_p = 0.3       # periodic assets: variables merged across steps, mapping index with gaps
-    env.coarse_p = 0.3
+    if not mip and rng.random() < 0.08:
+        env.freqs = ["MS", "W-MON"]      # calendar grids: steps of unequal length
+    env.periodic_p = max(getattr(env, "periodic_p", 0), 0.3)   # periodic assets: variables merged across steps, mapping index with gaps
+    env.coarse_p = max(getattr(env, "coarse_p", 0), 0.3)
     g = specs.gen_grid(env)
     w = env.world
     f = w["grids"][g]["freq"]
@@ -120,7 +122,7 @@ def gen_plan(rng, run_index, tier, opts):
             tp = gi.timepoints[now - 1]
             step_ = gi.timepoints[1] - gi.timepoints[0]
             nxt = gi.timepoints[now] if now < T else tp + step_
-            t = tp + (nxt - tp) / 2
+            t = tp + (nxt - tp) * rng.choice([0.5, 0.5, 0.02, 0.98])   # mid-step, just after a grid point, just before the next
             if tk.get("date_pos") == "beyond":
                 t = tp + 3 * step_
             wall = t.tz_convert("UTC").tz_localize(None) if t.tzinfo is not None else t
